@@ -187,6 +187,21 @@ def canon_type(t):
     return repr(t)
 
 
+def canon_ir(t):
+    """Deep canonical form of a pre-registry IR (nested field dicts are expanded, not abbreviated)."""
+    if isinstance(t, dict):
+        return ("model", frozenset((k, canon_ir(v)) for k, v in t.items()))
+    if isinstance(t, DOptional):
+        return ("opt", canon_ir(t.type))
+    if isinstance(t, DUnion):
+        return ("union", frozenset(canon_ir(m) for m in t.types))
+    if isinstance(t, DList):
+        return ("list", canon_ir(t.type))
+    if isinstance(t, DDict):
+        return ("dict", canon_ir(t.type))
+    return canon_type(t)
+
+
 def canon_registry(reg):
     out = []
     for m in reg.models:
@@ -315,7 +330,40 @@ def _descend(v, t, work):
                 _descend(x, t.type, work)
 
 
-def tightness_violations(root_model, samples):
+def first_accepting(registry, s):
+    for T in registry:
+        if str_accepts(T, s):
+            return T
+    return None
+
+
+def _covers(registry, a, b):
+    """does pseudo-type b cover a through the reflexive-transitive closure of the registry's replace relation?"""
+    seen, work = {a}, [a]
+    while work:
+        x = work.pop()
+        if x is b:
+            return True
+        for (p, q) in registry.replaces:
+            if p is x and q not in seen:
+                seen.add(q)
+                work.append(q)
+    return False
+
+
+def str_widening_justified(registry, strs):
+    """`str` is a documented widening only if literals overflow (a plain string of >=20 chars, or more than 15
+    distinct plain strings) or several string pseudo-types occur that have no common covering type among them."""
+    plain = {s for s in strs if first_accepting(registry, s) is None}
+    pseudo = {first_accepting(registry, s) for s in strs} - {None}
+    if any(len(s) >= 20 for s in plain) or len(plain) > 15:
+        return True
+    if len(pseudo) >= 2 and not any(all(_covers(registry, a, b) for a in pseudo) for b in pseudo):
+        return True
+    return False
+
+
+def tightness_violations(root_model, samples, registry=None):
     """Phase 2: every Optional / union member / element type / literal / Any in the final graph has a witness."""
     bad = []
     routed = route_objects(root_model, samples)
@@ -381,7 +429,11 @@ def tightness_violations(root_model, samples):
             elif t is float:
                 ok = any(type(v) is float for v in vals)
             elif t is str:
-                ok = any(isinstance(v, str) for v in vals)
+                strs = [v for v in vals if isinstance(v, str)]
+                ok = bool(strs)
+                if ok and registry is not None and not str_widening_justified(registry, strs):
+                    bad.append(f"{path}: str although the observed strings {sorted(set(strs))[:6]}.. neither overflow the "
+                               f"literal limits nor mix unrelated pseudo-types")
             else:
                 ok = False
             if not ok:
